@@ -14,7 +14,7 @@ RULE = ("Hypothesis draws a sequence set (small fully-drawn families, expanded f
         ">=1 gap in the result; distinct by hash of (inputs, names, config, entry).")
 ASSUMPTIONS = ["names are drawn from [A-Za-z0-9_.|-] for MSF/Clustal (their name column ends at the first blank); FASTA / object entry points also get names with blanks and punctuation",
                "kalign() cannot report how many rows it returns; the probe reads one row per non-empty input"]
-BUDGET = {"quick": dict(examples=700, workers=12, seconds=75),
+BUDGET = {"quick": dict(examples=600, workers=12, seconds=70),
           "thorough": dict(examples=1500, workers=16, seconds=840)}
 
 ENTRIES = ["arr", "dump", "write:fasta", "write:msf", "write:clu", "cli:fasta", "cli:msf", "cli:clu", "stdout:fasta",
@@ -209,3 +209,32 @@ def check(case):
     sample = {"entry": entry, "cfg": cfg, "n": len(in_seqs), "names": in_names[:3], "seqs": [s[:50] for s in in_seqs[:3]],
               "rows": [r[:60] for r in rows[:3]]}
     return engine.ok(nontrivial, cl, sample)
+
+
+# ------------------------------------------------------------------ enumerated size sweeps
+
+def extra(tier, seed, stats):
+    from concurrent.futures import ThreadPoolExecutor
+    from vlib import sweeps
+    quick = tier == "quick"
+    cases_ = []
+    for n in sweeps.count_sweep(quick):
+        for kind in ("dna", "protein"):
+            seqs = sweeps.family(n, 12 + n % 7, kind, salt=seed)
+            cases_.append({"names": ["s%d" % i for i in range(n)], "seqs": seqs, "cfg": {"type": 5, "threads": 1 + n % 4, "gpo": -1.0, "gpe": -1.0, "tgpe": -1.0},
+                           "entry": ["arr", "dump", "write:msf", "cli:clu"][n % 4], "kind": kind, "shape": "sweep_n", "final_newline": True})
+    for L in sweeps.length_sweep(quick):
+        kind = "dna" if L % 2 else "protein"
+        seqs = sweeps.family(2 + L % 3, L, kind, salt=seed)
+        cases_.append({"names": ["s%d" % i for i in range(len(seqs))], "seqs": seqs, "cfg": {"type": 5, "threads": 1 + L % 4, "gpo": -1.0, "gpe": -1.0, "tgpe": -1.0},
+                       "entry": ["arr", "dump", "write:fasta", "cli:msf"][L % 4], "kind": kind, "shape": "sweep_len", "final_newline": True})
+    with ThreadPoolExecutor(max_workers=12) as ex:
+        res = list(ex.map(check, cases_))
+    out = []
+    for c, r in zip(cases_, res):
+        stats.record(c, r)
+        if r["status"] == "violation":
+            out.append({"case": c, "detail": r["detail"], "kind": r.get("kind")})
+    stats.extra["sweep"] = "every sequence count %s and every sequence length %s (enumerated)" % (
+        "2..140, 250..261" if quick else "2..261, 500..519", "1..140, 250..261, 490..519, 1018..1029" if quick else "1..699, 1018..1029, 2040..2055")
+    return out
